@@ -3,7 +3,7 @@
 From Coq Require Import ZArith List Bool Lia.
 From Coq Require Import String.
 From PB Require Import C03.Model C03.Model2D C03.Proofs C03.Proofs2D C03.Instance
-  C03.Table C03.Instantiate gen.GenC03 C03.TableProofs C03.Raise.
+  C03.Table C03.Instantiate gen.GenC03 C03.TableProofs C03.Raise C03.Denote2D.
 Import ListNotations.
 Open Scope Z_scope.
 
@@ -181,6 +181,26 @@ Theorem C03_group_prefix : forall (ops : list op) (s : st XSym),
   exists k, fst (step_group s ops) = run XSym (firstn k ops) s.
 Proof. exact step_group_prefix. Qed.
 Print Assumptions C03_group_prefix.
+
+(* The 2-D theorems lifted from keys to the arrays the keys denote, for ANY deterministic library functions of the
+   object's axes (E = the x and z arrays): C03_inv_2d_denoted -- after every history the stored Vandermonde is the one
+   of the stored orders / max_cross, a pseudo-inverse not flagged stale is the pseudo-inverse of the stored Vandermonde,
+   the per-axis bases are those of the key's axes and the lazy full basis is absent or the Kronecker product of the
+   CURRENT per-axis bases; C03_history_2d_denoted -- a probe reads the same arrays as on a fresh object. *)
+Theorem C03_inv_2d_denoted :
+  forall (E V P B F : Type) (vander2 : E -> key2 -> V) (pinv : V -> P) (basis : E -> bool -> akey -> B)
+         (kron : B -> B -> F) (e : E) (x0 z0 : option Z) (ops : list op2),
+    DInv2 E V P B F vander2 pinv basis kron e (run2 ops (init2 x0 z0)).
+Proof. exact inv2_run_denoted. Qed.
+Print Assumptions C03_inv_2d_denoted.
+
+Theorem C03_history_2d_denoted :
+  forall (E V P B F : Type) (vander2 : E -> key2 -> V) (pinv : V -> P) (basis : E -> bool -> akey -> B)
+         (kron : B -> B -> F) (e : E) (x0 z0 : option Z) (ops : list op2) (probe : op2),
+    dobs2 E V P B F vander2 pinv basis kron e (snd (step2 (run2 ops (init2 x0 z0)) probe)) =
+    dobs2 E V P B F vander2 pinv basis kron e (snd (step2 (fresh2 (run2 ops (init2 x0 z0))) probe)).
+Proof. exact history2_denoted. Qed.
+Print Assumptions C03_history_2d_denoted.
 
 Theorem C03_group_prefix_2d : forall (ops : list op2) (s : st2),
   exists k, fst (step_group2 s ops) = run2 (firstn k ops) s.
